@@ -125,6 +125,13 @@ def build_pool(ctx, n_real, n_synth):
         for ltv in (4, 1, 7, 101):
             damaged.append({'id': 'r:%s-l%d' % (name, ltv), 'hex': O.mk_message(ids, 64, 25, 98, 0, ltv, pattern=True).hex(),
                             'kind': 'register'})
+    # the same TOP-LEVEL descriptor ids (a replication) with different descriptors inside it, through one coder (family
+    # steps use the same Decoder / Encoder object for both): a compiled template belongs to the whole unexpanded list
+    for fam, a_ids, b_ids in [('toprep-fixed', [102002, 12001, 7001], [102002, 10004, 11001]),
+                              ('toprep-delayed', [102000, 31001, 12001, 7001], [102000, 31001, 10004, 11001]),
+                              ('toprep-tail', [1001, 101003, 12001], [1001, 101003, 10004])]:
+        damaged.append({'id': 'r:xunb-%s-a' % fam, 'hex': O.mk_message(a_ids, 64, 33, pattern=True).hex(), 'kind': 'register'})
+        damaged.append({'id': 'r:xunb-%s-b' % fam, 'hex': O.mk_message(b_ids, 64, 33, pattern=True).hex(), 'kind': 'register'})
     # the SAME descriptor list, master tables and local table VERSION from different originating centres (98 has
     # local tables bundled, 7 / 34 / 0 have none): the choice of local tables depends on the centre too
     for name, ids in [('xctr-1192', [1001, 1192, 12001]), ('xctr-wmo', [1001, 1002, 12001]), ('xctr-8201', [8201, 12101])]:
@@ -373,6 +380,17 @@ def run(ctx):
         for i in rng.sample(wired, min(3, len(wired))):
             seq = ['wire', rng.choice(['nested', 'nestedtext', 'query']), 'wire', rng.choice(['nested', 'nestedtext', 'query']), 'nested']
             ops.insert(rng.randrange(len(ops) + 1), {'op': 'decode+observe', 'item': i, 'slot': rng.randrange(len(CACHE_MAXES)), 'seq': seq})
+        for nm in ('toprep-fixed', 'toprep-delayed', 'toprep-tail'):
+            a, b2 = 'r:xunb-%s-a' % nm, 'r:xunb-%s-b' % nm
+            if a in ids and b2 in ids and rng.random() < 0.7:
+                if rng.random() < 0.5:
+                    a, b2 = b2, a
+                slot_ = rng.choice([i for i, m in enumerate(CACHE_MAXES) if m]) if any(CACHE_MAXES) else 0
+                pos = rng.randrange(len(ops) + 1)
+                ops[pos:pos] = [{'op': 'decode', 'item': a, 'slot': slot_},
+                                {'op': 'decode+observe', 'item': b2, 'slot': slot_, 'seq': ['values', 'nested']},
+                                {'op': 'encode', 'item': a, 'slot': slot_, 'eslot': slot_},
+                                {'op': 'encode', 'item': b2, 'slot': slot_, 'eslot': slot_}]
         for nm in ('xunb-8201', 'xunb-1211'):
             a, b2 = 'r:%s-l%d' % (nm, rng.choice([4, 7])), 'r:%s-l%d' % (nm, rng.choice([1, 101]))
             if a in ids and b2 in ids:
